@@ -311,6 +311,27 @@ CHECKS = {
         "SQLite.",
         "DESIGN.md 5/C11",
     ),
+    "C20": (
+        "exploration",
+        "schedule exploration with a harness-owned scheduler (worker "
+        "processes gated at every line event of the start-up functions; all "
+        "single-preemption schedules + seeded random schedules) and "
+        "free-running multi-process stress with seeded start offsets; "
+        "differential against a single process",
+        "2-3 real worker processes on one database file are advanced line by "
+        "line through create_db / init_wikidata_cache / "
+        "add_empty_sandbox_lua_module / add_page by a scheduler that follows "
+        "every single-preemption schedule and random schedules; 2-16 "
+        "free-running workers add timing-dependent coverage. No worker may "
+        "raise, every result must equal the single-process result, stored "
+        "rows must be unchanged. Sampled / preemption-bounded, not all "
+        "interleavings.",
+        "What happens inside SQLite's C code is reached only through the "
+        "stall rule and the stress mode; a harness watchdog expiry is "
+        "inconclusive; trusts sys.settrace, pipes and the Lua stand-in "
+        "library.",
+        "DESIGN.md 5/C20",
+    ),
 }
 
 NOT_YET = "check not built yet in this round (planned in DESIGN.md section 5)"
